@@ -52,7 +52,11 @@ class Fragment:
         while True:
             if isinstance(obj, Fragment):
                 if hasattr(obj, "origins"):
-                    obj.origins = tuple(origins) + (obj.origins or ())
+                    # The fragment may be an object that is returned on each elaboration (e.g. an `Instance`
+                    # created once and stored); do not record the same origin again.
+                    obj.origins = tuple(origins) + tuple(
+                        origin for origin in (obj.origins or ())
+                        if not any(origin is new_origin for new_origin in origins))
                 return obj
             elif isinstance(obj, Elaboratable):
                 code = obj.elaborate.__code__
